@@ -244,6 +244,9 @@ pub struct NetProgram {
     /// the application inside the simulation reports an error from its own `at_sim_end`
     #[serde(default)]
     pub inner_end_err: bool,
+    /// fault: every timer future a task awaits is created on a fresh helper thread and handed over
+    #[serde(default)]
+    pub timers_elsewhere: bool,
     /// messages the driver injects from outside (`Runtime::add_message_onto`) while the run is paused
     #[serde(default)]
     pub injections: Vec<Inject>,
@@ -1135,6 +1138,7 @@ pub fn run_net(prog: &NetProgram, opts: &RunOpts) -> NetResult {
     TWIN.with(|t| *t.borrow_mut() = opts.twin);
     SILENT.with(|s| s.borrow_mut().clear());
     crate::asy::reset_run();
+    crate::asy::set_timers_elsewhere(prog.timers_elsewhere);
 
     let injected_at: RefCell<Vec<u64>> = RefCell::new(Vec::new());
     let outcome = std::panic::catch_unwind(std::panic::AssertUnwindSafe(|| {
